@@ -107,6 +107,16 @@ def check_node(sink, spec, sh, o, ns, ident, depth=0):  # noqa: C901
             sink.check(kc == 'IndexError', 'child(i)/out-of-range', 'child(i) raises IndexError out of range', ident, lambda: dict(i=i, n=n, got=kc))
             sink.check(ke == 'IndexError', 'entry(i)/out-of-range', 'entry(i) raises IndexError out of range', ident, lambda: dict(i=i, n=n, got=ke))
     sink.count('index-probes', 2 * n + 4)
+    # function forms of the inspection methods
+    strict = sh.kind == 'leaf'
+    loose = spec.num_nodes == 1
+    ok = (optree.treespec_children(spec) == children and len(optree.treespec_entries(spec)) == len(entries) and all(_eq(a, b) for a, b in zip(optree.treespec_entries(spec), entries))
+          and optree.treespec_is_leaf(spec) is strict and spec.is_leaf() is strict and optree.treespec_is_strict_leaf(spec) is strict
+          and optree.treespec_is_leaf(spec, strict=False) is loose and spec.is_leaf(strict=False) is loose and loose == (sh.arity == 0)
+          and _paths_eq(optree.treespec_paths(spec), spec.paths()) and optree.treespec_accessors(spec) == spec.accessors()
+          and len(spec) == spec.num_leaves == sh.num_leaves and spec.num_children == n)
+    sink.check(ok, 'function-forms', 'treespec_children / entries / is_leaf / is_strict_leaf / paths / accessors agree with the methods and the reference root', ident,
+               lambda: dict(strict=strict, loose=loose, got=(optree.treespec_is_leaf(spec), optree.treespec_is_leaf(spec, strict=False), optree.treespec_is_strict_leaf(spec))))
     for c in children:
         sink.check(c.none_is_leaf == o.none_is_leaf and c.namespace == ns, 'children/flags', 'children inherit none_is_leaf and namespace', ident)
     # one_level
